@@ -500,7 +500,10 @@ where
                     if same {
                         c.count("search:different-data-equal-but-indistinguishable(excluded)");
                     } else if tolerance_blind_spot(c, &m, &m3) {
-                        c.out.count(&format!("observed:{}:different-rows-and-targets:equal-but-predict-differently(all-state-within-absolute-epsilon)", c.tname));
+                        if std::env::var("C19_DUMP_PAIR").is_ok() {
+                            eprintln!("PAIRDATA {}", json!({"a": {"x": d.x, "y": d.y}, "b": {"x": d2.x, "y": d2.y}, "queries": d.q}));
+                        }
+                        known_eps(c, "different-rows-and-targets");
                     } else {
                         if std::env::var("C19_DUMP_PAIR").is_ok() {
                             eprintln!("PAIR {}\nA {}\nB {}\nOA {:?}\nOB {:?}", c.tname, serde_json::to_string(&m).unwrap_or_default(), serde_json::to_string(&m3).unwrap_or_default(), oa, ob);
@@ -531,6 +534,33 @@ where
 
 /// KNOWN_FINDINGS.txt lists `property=C19 id=dbscan-eq-ignores-points`
 const DBSCAN_FINDING_LISTED: bool = true;
+/// KNOWN_FINDINGS.txt lists `property=C19 id=knn-eq-ignores-training-rows`: type KNNClassifier / KNNRegressor, the
+/// two training matrices differ, k / targets / classes identical, `==` true, a probe row predicted differently
+const KNN_FINDING: &str = "knn-eq-ignores-training-rows";
+/// KNOWN_FINDINGS.txt lists `property=C19 id=eq-absolute-epsilon`: fitted on different rows / targets, every
+/// floating-point field of the two serialised states within the relation's absolute tolerance, `==` true, a probe
+/// row predicted / transformed differently
+const EPS_FINDING: &str = "eq-absolute-epsilon";
+fn known_knn(c: &mut Case, rel: &str) {
+    c.out.known(KNN_FINDING, "KNNClassifier / KNNRegressor fitted on different rows with the same k, targets (and classes) compare equal although they predict differently (PartialEq never looks at the stored training rows)");
+    let k = format!("known:{}:{}:{}", KNN_FINDING, c.tname, rel);
+    c.out.count(&k);
+}
+fn known_eps(c: &mut Case, rel: &str) {
+    c.out.known(EPS_FINDING, "models fitted on different rows / targets whose floating-point state agrees field by field within the relation's ABSOLUTE tolerance compare equal although they predict / transform differently");
+    let k = format!("known:{}:{}:{}", EPS_FINDING, c.tname, rel);
+    c.out.count(&k);
+}
+/// the predicate of the listed k-NN finding on the two serialised states (the caller has checked: rows differ,
+/// `==` true both ways, a probe row answered differently)
+fn knn_same_k_targets_classes(tname: &str, a: &Value, b: &Value) -> bool {
+    let same = |keys: &[&str]| keys.iter().all(|k| !a[*k].is_null() && a[*k] == b[*k]);
+    match tname {
+        "KNNRegressor" => same(&["k", "y"]),
+        "KNNClassifier" => same(&["k", "y", "classes"]),
+        _ => false,
+    }
+}
 fn dbscan_same_labelling<M: Serialize>(a: &M, b: &M) -> bool {
     match (serde_json::to_value(a), serde_json::to_value(b)) {
         (Ok(x), Ok(y)) => x["cluster_labels"] == y["cluster_labels"] && x["num_classes"] == y["num_classes"] && x["eps"] == y["eps"] && x["cluster_labels"].is_array(),
@@ -786,9 +816,9 @@ fn tolerance_blind_spot<M: Serialize>(c: &Case, a: &M, b: &M) -> bool {
     }
 }
 
-/// Equality that the CURRENT tree shows between models which predict differently, per (type, relation),
-/// under a predicate on the two serialised states that names exactly the blind spot (reported to the
-/// coordinator; counted as `observed:<type>:...` until decided).  Anything outside these predicates fails.
+/// Same rows and targets, another parameter value, equal although predicting differently: which part of the state
+/// the relation does not look at (a label for the counted observation; such pairs are outside the clause about
+/// different rows and targets, so nothing here decides pass / fail).
 fn observed_blind_spot(tname: &str, a: &Value, b: &Value, rows_differ: bool) -> Option<&'static str> {
     let same = |keys: &[&str]| keys.iter().all(|k| !a[*k].is_null() && a[*k] == b[*k]);
     match tname {
@@ -876,16 +906,26 @@ where
             (Ok(_), Ok(_)) => {
                 let (sa, sb) = (serde_json::to_value(m).unwrap_or(Value::Null), serde_json::to_value(&mv).unwrap_or(Value::Null));
                 let rows_differ = d.x != dv.x;
-                if c.tname == "DBSCAN" && rows_differ && dbscan_same_labelling(m, &mv) {
+                let data_changed = rows_differ || d.y != dv.y;
+                if !data_changed {
+                    // same rows and targets, another parameter value: OUTSIDE the clause "does not equal a model
+                    // fitted on different rows and targets" (coordinator's reading).  Counted observation, with the
+                    // blind spot of the relation that explains it where one is known.
+                    let why = if tolerance_blind_spot(c, m, &mv) { "all-state-within-absolute-epsilon" } else { observed_blind_spot(&c.tname, &sa, &sb, rows_differ).unwrap_or("unclassified") };
+                    c.out.count(&format!("observed:{}:{}:equal-but-predict-differently({})[same-data:outside-the-clause]", c.tname, relkey, why));
+                } else if c.tname == "DBSCAN" && rows_differ && dbscan_same_labelling(m, &mv) {
                     // the listed finding, exact predicate: different rows, same labelling, equal
                     if DBSCAN_FINDING_LISTED {
                         c.out.known("dbscan-eq-ignores-points", "DBSCAN models fitted on different rows with the same label vector compare equal (PartialEq ignores the stored points)");
                     }
                     c.out.count("observe:dbscan-eq-ignores-points(different-rows,same-labelling,equal)");
+                } else if rows_differ && knn_same_k_targets_classes(&c.tname, &sa, &sb) {
+                    // the listed finding, exact predicate: KNN*, training matrices differ, k / targets / classes identical,
+                    // == true, a probe row predicted differently
+                    known_knn(c, &relkey);
                 } else if tolerance_blind_spot(c, m, &mv) {
-                    c.out.count(&format!("observed:{}:{}:equal-but-predict-differently(all-state-within-absolute-epsilon)", c.tname, relkey));
-                } else if let Some(why) = observed_blind_spot(&c.tname, &sa, &sb, rows_differ) {
-                    c.out.count(&format!("observed:{}:{}:equal-but-predict-differently({})", c.tname, relkey, why));
+                    // the listed finding: different rows / targets, all floating-point state within the absolute tolerance
+                    known_eps(c, &relkey);
                 } else {
                     c.out.count(&format!("fail-detail:related_data_unequal:{}:{}", c.tname, relkey));
                     c.fail(
@@ -2207,6 +2247,62 @@ fn run_explicit(out: &mut Out, inp: &Value) -> bool {
                 _ => c.fail("serialise_never_fails", "corpus: BernoulliNB::fit failed on the corpus input"),
             }
             true
+        }
+        "eq-absolute-epsilon-pair" => {
+            // witness of the listed finding eq-absolute-epsilon: two data sets (a, b) with different rows / targets
+            // whose fits agree field by field within the relation's absolute tolerance
+            let (xa, ya) = (rows_from_json(&inp["a"]["x"]), f64s_from_json(&inp["a"]["y"]));
+            let (xb, yb) = (rows_from_json(&inp["b"]["x"]), f64s_from_json(&inp["b"]["y"]));
+            fn judge<M: Serialize + DeserializeOwned + Debug + PartialEq>(c: &mut Case, a: &M, b: &M, obs: &dyn Fn(&M) -> Vec<f64>, data_differ: bool) {
+                let tol = if c.f32m { 1e-4 } else { 1e-9 };
+                let differ = !close(&obs(a), &obs(b), tol);
+                let equal = a == b && b == a;
+                if equal && differ && data_differ {
+                    if tolerance_blind_spot(c, a, b) {
+                        known_eps(c, "corpus-witness");
+                    } else {
+                        c.fail("different_data_unequal", "corpus pair: models fitted on different rows / targets compare equal although they predict differently, and not because of the absolute tolerance");
+                    }
+                } else {
+                    c.count(&format!("search:corpus-witness-not-reproduced(equal={},predict-differently={})", equal, differ));
+                }
+                check_roundtrip(c, a, eq_of(), &|m: &M| obs(m));
+            }
+            let data_differ = xa != xb || ya != yb;
+            match inp["type"].as_str().unwrap_or("") {
+                "LogisticRegression<f32>" => {
+                    c.tname = "LogisticRegression".into();
+                    c.f32m = true;
+                    let alpha = inp["alpha"].as_f64().unwrap_or(1.0) as f32;
+                    let fit = |x: &Vec<Vec<f64>>, y: &Vec<f64>| LogisticRegression::fit(&mat::<f32>(x), &vect::<f32>(y), LogisticRegressionParameters::default().with_alpha(alpha));
+                    match (guard(|| fit(&xa, &ya)), guard(|| fit(&xb, &yb))) {
+                        (Ok(Ok(a)), Ok(Ok(b))) => judge(&mut c, &a, &b, &|m: &LogisticRegression<f32, DenseMatrix<f32>>| predict_obs(m.predict(&mat::<f32>(&q))), data_differ),
+                        _ => c.count("search:corpus-witness-fit-failed"),
+                    }
+                    true
+                }
+                "SVD<f64>" => {
+                    c.tname = "SVD".into();
+                    let k = inp["n_components"].as_u64().unwrap_or(1) as usize;
+                    let fit = |x: &Vec<Vec<f64>>| SVD::fit(&mat::<f64>(x), SVDParameters::default().with_n_components(k));
+                    match (guard(|| fit(&xa)), guard(|| fit(&xb))) {
+                        (Ok(Ok(a)), Ok(Ok(b))) => judge(
+                            &mut c,
+                            &a,
+                            &b,
+                            &|m: &SVD<f64, DenseMatrix<f64>>| {
+                                let mut o = vec![];
+                                push_mat(&mut o, m.transform(&mat::<f64>(&q)));
+                                o
+                            },
+                            data_differ,
+                        ),
+                        _ => c.count("search:corpus-witness-fit-failed"),
+                    }
+                    true
+                }
+                _ => false,
+            }
         }
         "KNNRegressor-prefix" => {
             c.tname = "KNNRegressor".into();
